@@ -173,6 +173,16 @@ def rule_r1(ctx) -> List[R.Inst]:
                     zipped = a0.value.id
             if lpm and len(apps) == 1:
                 acc = (apps[0].func.value.id, lpm[0], lpm[1], lp, zipped)
+        if acc is not None and acc[4] is not None:
+            # pairwise differences collected by the loop and summed up afterwards: X = list(accumulate(<acc>, initial=seed))
+            for n in walk_no_nested(fn.node):
+                if isinstance(n, ast.Assign) and isinstance(n.targets[0], ast.Name):
+                    v = n.value
+                    while isinstance(v, ast.Call) and call_name(v) in ("list", "tuple") and len(v.args) == 1:
+                        v = v.args[0]
+                    if isinstance(v, ast.Call) and call_name(v) == "accumulate" and len(v.args) == 1 and isinstance(v.args[0], ast.Name) and \
+                            v.args[0].id == acc[0] and {k.arg for k in v.keywords} == {"initial"}:
+                        acc = (n.targets[0].id, acc[1], acc[2], acc[3], None)
         if acc is None:
             # running-sum form: acc = list(accumulate([f(prev, curr) for prev, curr in zip(x[:-1], x[1:])], initial=seed)):
             # one result per element of x, in x's order (the seed stands for x[0])
@@ -263,7 +273,7 @@ def rule_r2(ctx) -> List[R.Inst]:
     rid = "C10.R2"
     insts = []
     # position-keyed chain: the only sort before the consecutive pairing is from_bpm_changes_snap's own
-    fn = M.fn(T.FROM_SNAP)
+    fn = M.nfn(T.FROM_SNAP)
     file = M.mods[fn.mod].rel
     good, why = T.callee_sorts_param(ctx, T.FROM_SNAP, "bcs_s", "snap")
     insts.append(R.ok(rid, "position-chain", file, fn.node.lineno, idiom=why) if good else
@@ -442,7 +452,7 @@ def rule_r4(ctx) -> List[R.Inst]:
         else:
             insts.append(R.undec(rid, key, ff, fn.node.lineno, "Snap(...) return not found"))
     # from_bpm_changes_snap: offset += (child.snap - parent.snap).offset(parent)
-    fs = M.fn(T.FROM_SNAP)
+    fs = M.nfn(T.FROM_SNAP)
     ff = M.mods[fs.mod].rel
     loops = [n for n in walk_no_nested(fs.node) if isinstance(n, ast.For) and isinstance(n.iter, ast.Call) and call_name(n.iter) == "zip"]
     done = False
@@ -719,7 +729,7 @@ def rule_r9(ctx) -> List[R.Inst]:
     for q, key, what in (
             ("reamber.algorithms.timing.utils.bpm_changes_offset_to_snap.bpm_changes_offset_to_snap", "one-per-change", "position"),
             ("reamber.algorithms.timing.utils.from_bpm_changes_snap.from_bpm_changes_snap", "one-time-per-change", "time")):
-        fn = M.fn(q)
+        fn = M.nfn(q)
         file = M.mods[fn.mod].rel
         loops = [n for n in fn.node.body if isinstance(n, ast.For)]
         # the list that is built: returned by name, or handed to TimingMap(bpm_changes_offset=<name>)
